@@ -388,10 +388,11 @@ def sequences(tier, seed):
             for x in allops[g]:
                 add((prod, x, (cons[0], 0) + tuple(cons[2:])), 'handle-after-other-call')
         # failed parse then good parse on the same object
-        for v in VARIANTS:
+        for v in (('none', 'asmodel', 'semantics', 'ignorecase') if tier == 'quick' else VARIANTS):
             add((('C', g, v), ('M', 0, 4, 'none'), ('M', 0, 0, 'none')), 'failed-then-good')
-            add((('C', g, v), ('M', 0, 4, 'none'), ('M', 0, 1, 'none')), 'failed-then-good')
             add((('C', g, v), ('M', 0, 0, 'none'), ('M', 0, 0, 'none')), 'good-then-good')
+            if tier != 'quick':
+                add((('C', g, v), ('M', 0, 4, 'none'), ('M', 0, 1, 'none')), 'failed-then-good')
         for v in ('none', 'ignorecase'):
             add((('S', g, v), ('G', 0, 4), ('G', 0, 0)), 'failed-then-good')
             add((('S', g, v), ('G', 0, 4), ('G', 0, 2)), 'failed-then-good')
